@@ -72,9 +72,11 @@ type c25Update struct {
 }
 
 type c25Case struct {
-	L2    bool `json:"l2"`    // second TLB level
-	Cache bool `json:"cache"` // MMU cache between the last TLB and the walker
-	GMMU  bool `json:"gmmu"`  // GMMU -> MMU instead of MMU
+	// (omitempty: lib keeps the shortest JSON as the representative of a
+	// violation key, so the smallest failing stack is the one reported)
+	L2    bool `json:"l2,omitempty"`    // second TLB level
+	Cache bool `json:"cache,omitempty"` // MMU cache between the last TLB and the walker
+	GMMU  bool `json:"gmmu,omitempty"`  // GMMU -> MMU instead of MMU
 	// Local (GMMU shapes): 0 = every page local to the GMMU's device, 1 = every
 	// page remote (walked by the MMU below), 2 = odd virtual pages remote.
 	Local   int        `json:"local,omitempty"`
@@ -285,6 +287,20 @@ func (d *c25Driver) Tick() bool {
 	return progress
 }
 
+func c25CmdName(c memcontrolprotocol.Command) string {
+	switch c {
+	case memcontrolprotocol.CmdPause:
+		return "pause"
+	case memcontrolprotocol.CmdDrain:
+		return "drain"
+	case memcontrolprotocol.CmdEnable:
+		return "enable"
+	case memcontrolprotocol.CmdInvalidate:
+		return "invalidate"
+	}
+	return fmt.Sprintf("cmd%d", int(c))
+}
+
 func c25Payload(op, size int) []byte {
 	b := make([]byte, size)
 	for i := range b {
@@ -308,6 +324,21 @@ type c25Level struct {
 	name string
 	reqs []*c25XReq
 	byID map[uint64]*c25XReq
+	// unknownRsps counts responses sent with a RspTo that names no received
+	// request: each of them leaves one request of this level unanswered.
+	unknownRsps int
+}
+
+func (lv *c25Level) unanswered() (n int, first *c25XReq) {
+	for _, x := range lv.reqs {
+		if x.rsps == 0 {
+			if first == nil {
+				first = x
+			}
+			n++
+		}
+	}
+	return n, first
 }
 
 type c25MemSeen struct {
@@ -391,6 +422,7 @@ func (r *c25Rig) watch(level string, top messaging.Port) {
 			}
 			x := lv.byID[rsp.RspTo]
 			if x == nil {
+				lv.unknownRsps++
 				r.pr.bad("translation:response-to-unknown-request:"+level,
 					"%s answered with RspTo=%d (Dst=%s, page pid=%d vaddr=%#x), but never received a request with that ID; requests received: %s",
 					level, rsp.RspTo, rsp.Dst, rsp.Page.PID, rsp.Page.VAddr, lv.describe())
@@ -592,9 +624,39 @@ func c25RunOnce(cs c25Case, cut int, pr *probs) (endCycle int, outcome string) {
 	}
 	endCycle = int(uint64(r.env.Eng.CurrentTime()) / 1000)
 	d := r.drv
-	where := fmt.Sprintf("cut %d, drained at cycle %d", cut, endCycle)
+	where := fmt.Sprintf("%s, cut %d, drained at cycle %d", cs.shape(), cut, endCycle)
+
+	// ---- every translation request answered exactly once at every level.
+	// r.levels is ordered bottom-up and a level cannot answer a miss before
+	// the level below it has answered, so only the LOWEST level that is stuck
+	// is blamed; whatever is stuck above it (translation requests, accesses, a
+	// Drain waiting for them) is its consequence and is only listed in the
+	// text. A request whose answer left under a foreign RspTo has already been
+	// reported by the port hook as response-to-unknown-request.
+	culprit := -1
+	for i, lv := range r.levels {
+		if n, _ := lv.unanswered(); n > 0 || lv.unknownRsps > 0 {
+			culprit = i
+			break
+		}
+	}
+	if culprit >= 0 {
+		lv := r.levels[culprit]
+		if n, first := lv.unanswered(); n > lv.unknownRsps {
+			var above []string
+			for _, up := range r.levels[culprit+1:] {
+				if k, _ := up.unanswered(); k > 0 {
+					above = append(above, fmt.Sprintf("%s:%d", up.name, k))
+				}
+			}
+			pr.bad("translation:request-unanswered:"+lv.name,
+				"%s: %s never answered request %d from %s (pid=%d vaddr=%#x) although nothing below it is left unanswered; %d of its %d requests are unanswered (%d answers left under an unknown RspTo); stuck above it as a consequence: %v",
+				where, lv.name, first.id, first.src, first.pid, first.vaddr, n, len(lv.reqs), lv.unknownRsps, above)
+		}
+	}
 
 	// ---- every driver request answered exactly once
+	ctrlStuck := cs.Upd != nil && d.phase != 2
 	answered := make([]int, len(cs.Ops))
 	for _, res := range d.results {
 		answered[res.op]++
@@ -607,11 +669,15 @@ func c25RunOnce(cs c25Case, cut int, pr *probs) (endCycle int, outcome string) {
 		}
 	}
 	for i, n := range answered {
-		if n == 0 {
-			pr.bad("memory:request-unanswered:"+cs.shape(), "%s: op %d %+v never got a response (issued %d of %d ops)", where, i, cs.Ops[i], d.next, len(cs.Ops))
-		}
-		if n > 1 {
+		switch {
+		case n > 1:
 			pr.bad("memory:request-answered-twice", "%s: op %d got %d responses", where, i, n)
+		case n == 0 && culprit >= 0:
+			// waits for (or behind) the translation already blamed above
+		case n == 0 && i >= d.next && ctrlStuck:
+			// held back behind the control sequence, which is reported below
+		case n == 0:
+			pr.bad("memory:request-unanswered", "%s: op %d %+v never got a response although every translation request was answered (issued %d of %d ops)", where, i, cs.Ops[i], d.next, len(cs.Ops))
 		}
 	}
 	for _, a := range d.anomalies {
@@ -620,17 +686,17 @@ func c25RunOnce(cs c25Case, cut int, pr *probs) (endCycle int, outcome string) {
 	for _, a := range d.nacks {
 		pr.bad("control:command-refused", "%s: %s", where, a)
 	}
-	if cs.Upd != nil && d.phase != 2 {
-		pr.bad("control:sequence-not-acknowledged:"+cs.Upd.First+":"+cs.shape(), "%s: the %s/invalidate/enable sequence stopped at step %d of %d", where, cs.Upd.First, d.step, len(d.steps))
-	}
-
-	// ---- every translation request answered exactly once at every level
-	for _, lv := range r.levels {
-		for _, x := range lv.reqs {
-			if x.rsps == 0 {
-				pr.bad("translation:request-unanswered:"+lv.name, "%s: %s never answered request %d from %s (pid=%d vaddr=%#x)", where, lv.name, x.id, x.src, x.pid, x.vaddr)
-			}
+	if ctrlStuck && d.step < len(d.steps) {
+		st := d.steps[d.step]
+		// a Drain legitimately waits for in-flight misses: if a level below
+		// never answers, the missing acknowledgement is a consequence
+		if !(culprit >= 0 && st.cmd == memcontrolprotocol.CmdDrain) {
+			pr.bad("control:command-not-acknowledged:"+c25CmdName(st.cmd)+":"+strings.TrimSuffix(string(st.target), ".Control"),
+				"%s: the %s/invalidate/enable sequence stopped at step %d of %d: %s never acknowledged %s although no translation request is left unanswered",
+				where, cs.Upd.First, d.step, len(d.steps), st.target, c25CmdName(st.cmd))
 		}
+	} else if ctrlStuck {
+		pr.bad("control:sequence-not-finished", "%s: all %d commands acknowledged but the controller never left the control phase", where, len(d.steps))
 	}
 
 	// ---- physical address at the memory
@@ -646,6 +712,9 @@ func c25RunOnce(cs c25Case, cut int, pr *probs) (endCycle int, outcome string) {
 			pr.bad("address:access-reached-memory-twice", "%s: op %d reached the memory twice", where, op)
 		}
 		o := cs.Ops[op]
+		if m.write && !bytes.Equal(m.data, c25Payload(op, m.size)) {
+			pr.bad("address:write-data-changed", "%s: op %d wrote %v", where, op, m.data)
+		}
 		want := c25FrameBase + uint64(r.frames[o.PID-1][o.VP])*c25PageSize + uint64(o.Off)
 		if m.addr == want {
 			continue
@@ -661,9 +730,6 @@ func c25RunOnce(cs c25Case, cut int, pr *probs) (endCycle int, outcome string) {
 				where, op, o, cs.Upd.First, r.ackCycle, m.addr, want)
 		default:
 			pr.bad("address:wrong-physical-address", "%s: op %d %+v reached memory at %#x, the page table says %#x", where, op, o, m.addr, want)
-		}
-		if m.write && !bytes.Equal(m.data, c25Payload(op, m.size)) {
-			pr.bad("address:write-data-changed", "%s: op %d wrote %v", where, op, m.data)
 		}
 	}
 	for i, n := range seenOf {
@@ -888,6 +954,26 @@ func enumC25(c *lib.Ctx, yield func(c25Case) bool) {
 			}
 		}
 	}
+	// family D (quick only: the thorough tier has 3-access scripts in every
+	// family): an evicted page is accessed again. Every read-only script of 3
+	// accesses on the one-way TLB stacks.
+	if !thorough {
+		for _, sh := range []c25Shape{{}, {l2: true}} {
+			for _, g := range []c25Geo{{1, 1, 1, 2}, {2, 1, 1, 2}} {
+				ok := c25Scripts(3, 3, func(ops []c25Op) bool {
+					for _, o := range ops {
+						if o.W {
+							return true
+						}
+					}
+					return yield(mk(sh, g, 0, 4, false, ops, nil))
+				})
+				if !ok {
+					return
+				}
+			}
+		}
+	}
 	// family C: one page-table update + shoot-down at every cut
 	geosC := []c25Geo{{1, 1, 1, 1}, {1, 1, 1, 2}}
 	if c.Thorough() {
@@ -931,8 +1017,10 @@ func init() {
 		Rule: "every stack AT -> TLB -> [L2 TLB] -> [MMU cache] -> {MMU | GMMU -> MMU} (GMMU: pages all local / all remote / odd pages remote) built from the real components, one real direct connection per link, an ideal memory under the AT; " +
 			"2 PIDs x 3 virtual 4 KiB pages mapped to 4 frames by 4 tables (injective, shared across PIDs, shared inside a PID, permuted); scripts = every sequence of <= 2 (thorough 3) accesses (read|write, pid, vpage, offset in {0,8}; in 3-access scripts the offset is tied to the kind), issued serially or eagerly; " +
 			"family A: all 16 stacks x tables {0,2} (thorough all 4) x TLB geometries (sets,ways,MSHR,latency) {(1,1,1,1),(1,1,1,2),(2,2,2,4)}, port buffers 4; family B: stacks TLB>MMU and TLB>L2TLB>MMU x every geometry sets{1,2} x ways{1,2} x MSHR{1,2} (quick: MSHR = ways) x latency{1,2,4} x port buffers {1,4}, table 0; " +
-			"family C: every script of 2 (thorough 2..3) accesses whose last page was touched before, with one page-table update of that page at EVERY driver cycle of the run, followed by {Pause|Drain} -> Invalidate(pid,page) -> Enable sent top-down to every TLB / MMU cache, one acknowledged command at a time; the last access is issued after the final acknowledgement (12 stacks x geometries {(1,1,1,1),(1,1,1,2)} (thorough + (2,2,2,2),(1,2,2,4))). " +
-			"Oracle: the address each access has at the memory == frame(pid,vpage) + offset (accesses issued before the update may use either mapping, accesses issued after the acknowledgement only the new one); port-hook ledger on every Top port: each translation request answered exactly once with RspTo == its ID, Dst == its Src, its own page and the table's frame; every access answered exactly once; serial update-free runs also read back what a flat memory at the mapped addresses holds; no panic, no livelock. Each tuple is a distinct case.",
+			"family C: every script of 2 (thorough 2..3) accesses whose last page was touched before, with one page-table update of that page at EVERY driver cycle of the run, followed by {Pause|Drain} -> Invalidate(pid,page) -> Enable sent top-down to every TLB / MMU cache, one acknowledged command at a time; the last access is issued after the final acknowledgement (12 stacks x geometries {(1,1,1,1),(1,1,1,2)} (thorough + (2,2,2,2),(1,2,2,4))); " +
+			"family D (quick only; thorough has 3-access scripts in every family): every read-only script of 3 accesses (an evicted page is accessed again) on TLB>MMU and TLB>L2TLB>MMU with one-way TLBs (sets 1 and 2). " +
+			"Oracle: the address each access has at the memory == frame(pid,vpage) + offset (accesses issued before the update may use either mapping, accesses issued after the acknowledgement only the new one); port-hook ledger on every Top port: each translation request answered exactly once with RspTo == its ID, Dst == its Src, its own page and the table's frame; every access answered exactly once; write payloads reach the memory unchanged; serial update-free runs also read back what a flat memory at the mapped addresses holds; every control command acknowledged; no panic, no livelock. " +
+			"Only the lowest stuck translation level is reported: requests, accesses and a Drain stuck above it are its consequences and are listed in its text. Each tuple is a distinct case.",
 		Sharded:     true,
 		MinOutcomes: 10,
 		Assumptions: []string{
